@@ -95,9 +95,18 @@ def _fold_agreement(repo, fn, clause):
     if allp is None:
         raise AnalysisError("C-idx: unpacking of the four image lists not found")
     folds = []
+    len_alias = {}
+    for n in fn.all_nodes():
+        if isinstance(n, ast.Assign) and len(n.targets) == 1 and isinstance(n.targets[0], ast.Name) and isinstance(n.value, ast.Call) and call_name(n.value) == "len":
+            len_alias[n.targets[0].id] = n.value
     for n in fn.all_nodes():
         if isinstance(n, ast.BinOp) and isinstance(n.op, ast.Mod) and isinstance(n.right, ast.Call) and call_name(n.right) == "len":
             folds.append(n)
+        elif isinstance(n, ast.BinOp) and isinstance(n.op, ast.Mod) and isinstance(n.right, ast.Name) and n.right.id in len_alias:
+            import copy as _copy
+            n2 = _copy.copy(n)
+            n2.right = len_alias[n.right.id]
+            folds.append(n2)
     poss = [n for n in fn.all_nodes() if isinstance(n, ast.Subscript) and isinstance(n.value, ast.Name) and n.value.id == allp]
 
     def shape(e):
@@ -113,7 +122,9 @@ def _fold_agreement(repo, fn, clause):
     obs.append(Ob("Cidx", clause, fn, folds[0] if folds else fn.node, ok,
                   "returned index, returned position and the duplicate-grouping key all go through the same image index %s[<candidate atom>] "
                   "(%d folds %s, %d position lookups %s) and fold with the structure's atom count %s" % (near_idx, len(folds), sorted(map(str, fshapes)), len(poss), sorted(map(str, pshapes)), sorted(lens)),
-                  slot="fold-agreement"))
+                  slot="fold-agreement",
+                  positive=(not ok) and len(folds) >= 2 and (len(fshapes) > 1 or (len(fshapes) == 1 and fshapes != pshapes and len(pshapes) == 1) or lens != {"len(%s)" % fn.params[0]}),
+                  undecided=(not ok) and not (len(folds) >= 2 and (len(fshapes) > 1 or (len(fshapes) == 1 and fshapes != pshapes and len(pshapes) == 1) or lens != {"len(%s)" % fn.params[0]}))))
     # grouping key is order-free
     gk = [c for c in calls_in(fn) if call_name(c) == "group_duplicates"]
     ok = len(gk) == 1 and kwarg(gk[0], "key") is not None and isinstance(kwarg(gk[0], "key"), ast.Lambda) and \
@@ -317,9 +328,10 @@ def C_unchanged_pairs(repo, clause):
         parts = t.values if isinstance(t, ast.BoolOp) and isinstance(t.op, ast.And) else [t]
         for p in parts:
             if isinstance(p, ast.Compare) and len(p.ops) == 1:
+                pl = expand(fn, p.left)
                 if isinstance(p.ops[0], (ast.Lt, ast.LtE)) and isinstance(p.comparators[0], ast.Name) and p.comparators[0].id in fn.params \
-                        and isinstance(p.left, ast.Call) and call_name(p.left) == "norm":
-                    names = names_in(p.left)
+                        and isinstance(pl, ast.Call) and call_name(pl) == "norm":
+                    names = names_in(pl)
                     dist_ok = io[1] in names and ii[1] in names
                 if isinstance(p.ops[0], ast.Eq):
                     txt = {re.sub(r"\s", "", ast.unparse(p.left)), re.sub(r"\s", "", ast.unparse(p.comparators[0]))}
@@ -448,6 +460,21 @@ def C_axis_diag(repo, clause):
                     txt = ast.unparse(te)
                     if "cell_is_orthorhombic" in txt and isinstance(te, ast.Call) and pol:
                         ok, why = True, "dominated by the guard %s" % txt
+                    elif pol and isinstance(t, ast.Name) and t.id in fn.params:
+                        # the guard is a flag parameter: guarded if every caller in the package computes that flag with cell_is_orthorhombic()
+                        sites = []
+                        pos_ = [p_ for p_ in fn.params if p_ not in ("self", "cls")]
+                        for f2 in repo.all_fns():
+                            for call_ in [y for y in f2.own_nodes() if isinstance(y, ast.Call) and call_name(y) == fn.name]:
+                                arg_ = None
+                                if t.id in pos_ and pos_.index(t.id) < len(call_.args):
+                                    arg_ = call_.args[pos_.index(t.id)]
+                                for k_ in call_.keywords:
+                                    if k_.arg == t.id:
+                                        arg_ = k_.value
+                                sites.append(arg_ is not None and isinstance(expand(f2, arg_), ast.Call) and call_name(expand(f2, arg_)) == "cell_is_orthorhombic")
+                        if sites and all(sites):
+                            ok, why = True, "guarded by the flag parameter `%s`, which every caller (%d) computes with cell_is_orthorhombic()" % (t.id, len(sites))
                 if not ok:
                     # post-validation (LAMMPS orientation): an `if not orthorhombic:` block that raises unless the upper triangle is zero
                     for s in fn.own_nodes():
@@ -628,7 +655,19 @@ def C_axis_replicate(repo, clause):
         g = lc.generators[0]
         ok = len(lc.generators) == 1 and not g.ifs and isinstance(g.iter, ast.Name) and g.iter.id == fn.params[1] and isinstance(g.target, ast.Name) \
             and isinstance(lc.elt, ast.Call) and call_name(lc.elt) == "range" and len(lc.elt.args) == 1 and ast.unparse(lc.elt.args[0]) == g.target.id
-    obs.append(Ob("Caxis", clause, fn, mg[0] if mg else fn.node, ok, "image multipliers enumerate range(factor) on each of the three axes", slot="multipliers"))
+    wrong_range = False
+    if not ok and len(mg) == 1 and len(mg[0].args) == 1 and isinstance(mg[0].args[0], ast.Starred):
+        sv = mg[0].args[0].value
+        if isinstance(sv, ast.Call) and call_name(sv) == "map" and len(sv.args) == 2 and isinstance(sv.args[0], ast.Name) and sv.args[0].id == "range" \
+                and isinstance(sv.args[1], ast.Name) and sv.args[1].id == fn.params[1]:
+            ok = True                      # map(range, factors)
+        elif isinstance(sv, (ast.ListComp, ast.GeneratorExp)) and len(sv.generators) == 1 and isinstance(sv.elt, ast.Call) and call_name(sv.elt) == "range":
+            g = sv.generators[0]
+            if not g.ifs and isinstance(g.iter, ast.Name) and g.iter.id == fn.params[1] and isinstance(g.target, ast.Name):
+                ok = len(sv.elt.args) == 1 and ast.unparse(sv.elt.args[0]) == g.target.id
+                wrong_range = not ok       # range(r + 1), range(1, r), ...: the same idiom with other bounds
+    obs.append(Ob("Caxis", clause, fn, mg[0] if mg else fn.node, ok, "image multipliers enumerate range(factor) on each of the three axes", slot="multipliers",
+                  positive=wrong_range, undecided=not ok and not wrong_range))
     rs = [c for c in calls_in(fn) if call_name(c) == "reshape" and mg and any(x is mg[0] for x in ast.walk(c))]
     ok = len(rs) == 1 and [const_value(a) for a in rs[0].args] == [-1, 3] and ".T.reshape" in ast.unparse(rs[0]).replace(" ", "")
     obs.append(Ob("Caxis", clause, fn, rs[0] if rs else fn.node, ok, "multiplier grid is flattened to rows of three integers (one per lattice axis)", slot="multipliers-shape"))
